@@ -69,6 +69,10 @@ CHECKS = {
                 technique="exhaustive configuration enumeration (model mixes x threshold x alignment x shard limit x workers x destination x path spelling x backend) with save + reload + layout audit per configuration",
                 text="Eight model mixes (in-memory, lazy, packed/unpacked 4-bit, 2-bit, proto-backed via raw and typed fields, already external from another file, re-save of a loaded model onto its own data file, zero-size, one tensor object under several names incl. across graphs, subgraph initializers, many small, every size class) are saved with every option tuple of the grid (thorough: full cross product of 4 thresholds x 7 alignment settings x 6 shard limits x 4 worker counts x 3 destinations x 3 path spellings; quick: reduced grid) through the raw backend and the safetensors backend, reloaded with ir.load and audited: name/dtype/shape/bytes of every initializer in every graph, external iff above the threshold, per data file ranges in declaration order (raw), disjoint, inside the file, aligned as requested, each tensor in one shard, over-limit shards hold one tensor, no trailing bytes, and the model passed to save holds the same tensor objects afterwards.",
                 note="Threshold ties follow the documented comparison; the order inside a safetensors file is chosen by the safetensors writer and not judged."),
+    "C15": dict(level="model_checking", engine="E1-seq", design="4/C15",
+                technique="exhaustive enumeration of add/remove/re-add histories of the name authority, of small models over a colliding name alphabet for NameFixPass, and of all rename_values assignments",
+                text="(a) From three seed graphs (plain, generated-looking input/initializer names) every history up to depth 4 (thorough 5) of adding nodes (two op types x explicit names shaped like generated ones, also of the other op type x explicit/absent output names, via append/constructor/insert_before/extend), removing, re-adding and re-adding after un-naming is executed; every generated node/value name must be new for the graph, explicit names untouched. (b) NameFixPass runs on every model of main graph + If body + model-local function whose values and nodes take names from {None, '', a, a_1, v, v_1} / {None, n, n_1, node}: afterwards all names non-empty, unique per graph and against visible outer values, initializers keyed by name, nothing but names changed, unique names kept, second run reports no modification. (c) rename_values is called with every assignment of <= 3 names (incl. swaps, cycles, duplicates, '', colliding names) to <= 3 of six values (initializers of two graphs, node output, input): applied completely with keys/flags following, or raised with the snapshot unchanged.",
+                note="Registered names are tracked by the harness' own log; visible outer values under the weakest reading."),
 }
 
 NOT_YET = {}
@@ -108,7 +112,7 @@ def main():
         "engines": [
             {"name": "E1-bfs", "path": "mc/explore.py", "serves_properties": ["C01", "C06", "C19", "C20"],
              "kind_free_text": "explicit-state BFS over the real transition function; states are histories replayed on fresh real objects; dedup on canonical public snapshot"},
-            {"name": "E1-seq", "path": "mc/props/c11.py", "serves_properties": ["C11"],
+            {"name": "E1-seq", "path": "mc/props/c11.py", "serves_properties": ["C11", "C15"],
              "kind_free_text": "stateless enumeration of all event sequences up to a depth with trace monitors"},
             {"name": "E6-enum", "path": "mc/props/", "serves_properties": ["C02", "C04", "C07", "C10", "C12", "C16", "C17"],
              "kind_free_text": "small-scope exhaustive input/structure enumeration with independent reference oracles"},
